@@ -270,6 +270,7 @@ std::string World::format_trace(size_t max_lines) const {
 }
 
 double World::vt(int rank) const { return tasks_[rank]->vt; }
+void World::rank_stack(const void** bottom, size_t* size) const { const Task& t = *tasks_[g_rank]; *bottom = t.stack; *size = t.stack_size; }
 
 void World::set_verdict(const std::string& v, const std::string& d) {
     if (!verdict_set_) { verdict_set_ = true; verdict_ = v; detail_ = d; }
